@@ -58,6 +58,8 @@ func init() {
 	registerTri()
 	registerBanded()
 	registerSetters()
+	registerWrappers()
+	registerNonZeroDoers()
 	registerCtors()
 	registerFactor()
 	registerFuncs()
